@@ -109,7 +109,8 @@ pub fn rank_support(l: usize, written: bool) {
 /// Uniform vectors (all bits equal to `value`, concrete length): all three supports are built,
 /// written and LOADED (their sizes are concrete here), the loaded copy equals the original and
 /// answers select / select_zero / rank for a symbolic argument.
-pub fn uniform(l: usize, value: bool) {
+pub fn uniform(l: usize, value: bool, long: bool) {
+    crate::c01::set_regime(long);
     let raw = simple_sds::raw_vector::RawVector::with_len(l, value);
     let mut bv = BitVector::from(raw);
     bv.enable_rank(); bv.enable_select(); bv.enable_select_zero();
